@@ -97,6 +97,9 @@ struct Node {
     filters: Vec<[u8; 512]>,
     byz_filter: [u8; 512],
     byz_ids: Vec<ntp_proto::v5::ServerId>,
+    /// byzantine servers behave normally for this many answers, then show their kind
+    flip_after: u64,
+    served: u64,
     last_logged: (u8, [u8; 4]),
     ticks: u64,
 }
@@ -328,6 +331,8 @@ fn serve(nodes: &mut [Node], net: &mut SimNet<Meta>, d: &Datagram<Meta>, ti: usi
             let mut bound = true;
             let mut filter = t.byz_filter;
             let mut tag = "byz-normal";
+            t.served += 1;
+            let b = if t.served <= t.flip_after { Byz::Normal } else { b };
             match b {
                 Byz::Normal => {}
                 Byz::RefidLoop => {
@@ -501,6 +506,30 @@ fn deliver(nodes: &mut [Node], d: Datagram<Meta>, ni: usize) {
                     }
                 }
                 probe("complete-filter-compared");
+            }
+        }
+    }
+    if accepted {
+        // C33 order clause: the measurement of a response for which the statement says "do not use"
+        // must not reach the controller while it still believes the source usable
+        let slot = &nodes[ni].slots[si];
+        let reasons = model_reasons(&nodes[ni], slot, &after);
+        let told = slot.spy.told_at(m0 + 1);
+        simkit::oracle("C33");
+        if !reasons.is_empty() {
+            probe("measurement-of-rejected-response");
+            if told != Some(false) {
+                simkit::violation(
+                    "C33",
+                    "rejected-response-measured-while-believed-usable",
+                    format!(
+                        "node{ni} src{si}->{} answer {tag}: the model rejects the source with this response ({reasons:?}; stratum {} refid {:?} local stratum {}), yet its measurement reached the controller while the last set_usable was {told:?}",
+                        slot.target, slot.m_stratum, slot.m_refid, nodes[ni].local_stratum
+                    ),
+                );
+            }
+            if u0 > 0 && slot.spy.0.lock().unwrap().usable[u0 - 1] {
+                probe("usable-source-flipped-to-rejected-on-this-response");
             }
         }
     }
@@ -797,6 +826,8 @@ pub fn run_daemon() {
                 filters: if matches!(role_is_byz, true) { vec![byz_filter] } else { vec![[0u8; 512]] },
                 byz_filter,
                 byz_ids,
+                flip_after: if role_is_byz && chance("cfg.byz.flips", 0.6) { 2 + choose("cfg.byz.flipafter", 30) } else { 0 },
+                served: 0,
                 last_logged: (0, [0; 4]),
                 ticks: 0,
             });
